@@ -17,7 +17,7 @@
 (***************************************************************************)
 EXTENDS Integers, Sequences, FiniteSets
 
-Min(a, b) == IF a < b THEN a ELSE b
+MinI(a, b) == IF a < b THEN a ELSE b
 
 (* ======================= property level ======================= *)
 (* What the underlying bucket answers -- the reference every read through  *)
@@ -28,7 +28,7 @@ Data(d) == [kind |-> "data", data |-> d]
 
 (* bytes [off, off+len) of obj, clipped to the object; empty when off is at or beyond the end *)
 RangeOf(obj, off, len) ==
-    IF off >= Len(obj) \/ len <= 0 THEN <<>> ELSE SubSeq(obj, off + 1, Min(off + len, Len(obj)))
+    IF off >= Len(obj) \/ len <= 0 THEN <<>> ELSE SubSeq(obj, off + 1, MinI(off + len, Len(obj)))
 
 BktGetRange(bkt, x, off, len) == IF bkt[x] = Absent THEN NotFound ELSE Data(RangeOf(bkt[x], off, len))
 (* Get, reading k bytes and closing (k < 0: reading to the end) *)
@@ -102,7 +102,7 @@ ReadAll(subs, S, ro, rem) ==
                   offIn == ro - cur
                   avail == Len(sub) - offIn
               IN IF avail <= 0 THEN [ok |-> FALSE, data |-> <<>>]
-                 ELSE LET k == Min(avail, rem)
+                 ELSE LET k == MinI(avail, rem)
                           rest == ReadAll(subs, S, ro + k, rem - k)
                       IN [ok |-> rest.ok, data |-> SubSeq(sub, offIn + 1, offIn + k) \o rest.data]
 
